@@ -3,10 +3,12 @@ package c13
 
 import (
 	"bytes"
+	"encoding/json"
 	"fmt"
 	"io"
 	"net/http"
 	"net/url"
+	"strconv"
 	"strings"
 	"sync"
 	"testing"
@@ -90,6 +92,10 @@ type OpenCase struct {
 	Body        string `json:"body"`
 	RewriteHost bool   `json:"rewrite_websocket_host,omitempty"`
 	Host        string `json:"request_host,omitempty"`
+	// After: what happens to an opened session before the client closes it: "" nothing, "abort" the backend drops the TCP
+	// connection, "1001"/"1011"/"1000" the backend closes with that code; the client then polls and posts data.
+	// Whatever the agent does about it (report the session closed, or connect again), it may only ever dial the backend.
+	After string `json:"after_open,omitempty"`
 }
 
 func runOpen(body string) vh.Outcome { return runOpenCase(&OpenCase{Body: body}) }
@@ -161,6 +167,29 @@ func runOpenCase(oc *OpenCase) vh.Outcome {
 		}
 		jsonUnmarshal(res.Body, &sm)
 		bc := waitConn(r, u)
+		if bc != nil && oc.After != "" {
+			o.Classes = append(o.Classes, "backend-ends-the-session-"+oc.After)
+			switch oc.After {
+			case "abort":
+				bc.Abort()
+			case "1000":
+				bc.Close()
+			default:
+				code, _ := strconv.Atoi(oc.After)
+				bc.CloseWith(code)
+			}
+			time.Sleep(20 * time.Millisecond)
+			for k := 0; k < 2; k++ {
+				r.CallHost(oc.Host, "POST", r.ShimPath+"/poll", shimrig.IDBody(sm.ID), hdr, 25*time.Second)
+				r.CallHost(oc.Host, "POST", r.ShimPath+"/data", shimrig.DataBody(sm.ID, []json.RawMessage{json.RawMessage(`"hello again"`)}), hdr, 10*time.Second)
+			}
+			for _, d := range r.TakeDials() {
+				if d != r.Host {
+					o.Err = fmt.Errorf("open with body %q (request host %q), then the backend ended the connection (%s) and the client polled: the agent connected to %q; the only allowed peer is the configured backend %q", body, oc.Host, oc.After, d, r.Host)
+					return o
+				}
+			}
+		}
 		r.Call("POST", r.ShimPath+"/close", shimrig.IDBody(sm.ID), nil, 5*time.Second)
 		if bc == nil {
 			o.Err = fmt.Errorf("open with body %q answered 200 but no handshake with path %q reached the backend", body, u.Path)
@@ -211,6 +240,9 @@ func TestPropOpenConfinement(t *testing.T) {
 	vh.Rapid(t, vh.Scale(3000, 100000), func(rt *rapid.T) {
 		oc := OpenCase{Body: genBody(rt), RewriteHost: rapid.Bool().Draw(rt, "rewriteHost"),
 			Host: rapid.SampledFrom([]string{"", "evil.example", "evil.example:8080", "front.example"}).Draw(rt, "requestHost")}
+		if rapid.IntRange(0, 7).Draw(rt, "after") == 0 {
+			oc.After = rapid.SampledFrom([]string{"abort", "1001", "1011", "1000"}).Draw(rt, "afterKind")
+		}
 		if rapid.IntRange(0, 5).Draw(rt, "redir") == 0 {
 			// a path on which the backend answers the handshake with a redirect
 			oc.Body = "ws://whatever.example" + rapid.SampledFrom([]string{"/redir-host/a", "/redir-evil/a", "/redir-rel/a"}).Draw(rt, "redirPath")
